@@ -233,7 +233,9 @@ class TBRDiagnostics(object):
         beta_quantile = stats.beta.ppf(1 - max_prob, pretest_len, 1)
         threshold = stats.t.ppf((1 + beta_quantile) / 2, df=pretest_len - 3)
         max_resid = max(absresid)
-        if max_resid < threshold:
+        # A (numerically) perfect fit has no defined studentized residuals: no
+        # date can be singled out, and the loop below would never advance.
+        if np.isnan(max_resid) or max_resid < threshold:
           break
         exclude_date = list(data_subset.index[absresid == max_resid])
         excluded_dates.extend(exclude_date)
